@@ -17,6 +17,162 @@ open MdsVerif.Model.Stree MdsVerif.Model.Cursor
 
 variable {α : Type}
 
+/-! ## the regenerated facts (`Gen.Cursor`) in the form the proofs use
+
+`Model.Cursor` takes the child/descent directions, the `HasNext`/`HasPrev` formula, the truncation of
+`Next`/`Prev`, `HasParent`'s test and `Up`'s new length from `Gen.Cursor` (regenerated from cursor.go on every
+run).  The lemmas of this section restate every model function that does so with the pinned facts written
+out; everything below (and `Props.C03`) unfolds those functions only through them. -/
+section facts
+
+theorem pathTake_succ (p : Pos α) (j : Nat) : pathTake p ((j : Int) + 1) = some { p with dirs := p.dirs.take j } := by
+  have h : ((j : Int) + 1).toNat = j + 1 := by omega
+  simp only [pathTake, h, Nat.add_one_ne_zero, if_false, Nat.add_sub_cancel]
+
+theorem findNext_def (p : Pos α) :
+    findNext p =
+      match right p.cur with
+      | .node l x r => .child (.node l x r)
+      | .nil =>
+        match walkUp .L p.dirs p.dirs.length with
+        | some j => .anc j
+        | none => .none := rfl
+
+theorem findPrev_def (p : Pos α) :
+    findPrev p =
+      match left p.cur with
+      | .node l x r => .child (.node l x r)
+      | .nil =>
+        match walkUp .R p.dirs p.dirs.length with
+        | some j => .anc j
+        | none => .none := rfl
+
+theorem hasNext_def (c : Cursor α) :
+    hasNext c =
+      match c with
+      | none => false
+      | some p => match findNext p with | .child _ => true | .anc _ => true | .none => false := by
+  cases c with
+  | none => rfl
+  | some p =>
+    simp only [hasNext]
+    cases findNext p with
+    | child _ => rfl
+    | anc j => simp [Gen.Cursor.hasNextOf]
+    | none => rfl
+
+theorem hasPrev_def (c : Cursor α) :
+    hasPrev c =
+      match c with
+      | none => false
+      | some p => match findPrev p with | .child _ => true | .anc _ => true | .none => false := by
+  cases c with
+  | none => rfl
+  | some p =>
+    simp only [hasPrev]
+    cases findPrev p with
+    | child _ => rfl
+    | anc j => simp [Gen.Cursor.hasPrevOf]
+    | none => rfl
+
+theorem next_def (c : Cursor α) :
+    next c =
+      match c with
+      | none => none
+      | some p =>
+        match findNext p with
+        | .child m => some { p with dirs := p.dirs ++ .R :: spineL m }
+        | .anc j => some { p with dirs := p.dirs.take j }
+        | .none => none := by
+  cases c with
+  | none => rfl
+  | some p =>
+    simp only [next]
+    cases findNext p with
+    | child _ => rfl
+    | anc j =>
+      have : Gen.Cursor.nextTruncates (j : Int) = true := by simp [Gen.Cursor.nextTruncates]
+      simp only [this, if_true, Gen.Cursor.nextTruncLen, pathTake_succ]
+    | none => rfl
+
+theorem prev_def (c : Cursor α) :
+    prev c =
+      match c with
+      | none => none
+      | some p =>
+        match findPrev p with
+        | .child m => some { p with dirs := p.dirs ++ .L :: spineR m }
+        | .anc j => some { p with dirs := p.dirs.take j }
+        | .none => none := by
+  cases c with
+  | none => rfl
+  | some p =>
+    simp only [prev]
+    cases findPrev p with
+    | child _ => rfl
+    | anc j =>
+      have : Gen.Cursor.prevTruncates (j : Int) = true := by simp [Gen.Cursor.prevTruncates]
+      simp only [this, if_true, Gen.Cursor.prevTruncLen, pathTake_succ]
+    | none => rfl
+
+theorem hasLeft_def (c : Cursor α) :
+    hasLeft c = match c with | none => false | some p => !isNil (left p.cur) := by
+  cases c <;> rfl
+
+theorem hasRight_def (c : Cursor α) :
+    hasRight c = match c with | none => false | some p => !isNil (right p.cur) := by
+  cases c <;> rfl
+
+theorem hasParent_def (c : Cursor α) :
+    hasParent c = match c with | none => false | some p => decide (p.dirs.length + 1 > 1) := by
+  cases c with
+  | none => rfl
+  | some p =>
+    simp only [hasParent, Gen.Cursor.hasParentTest]
+    rw [decide_eq_decide]; omega
+
+theorem goLeft_def (c : Cursor α) :
+    goLeft c =
+      match c with
+      | none => none
+      | some p => if isNil (left p.cur) then none else some { p with dirs := p.dirs ++ [.L] } := by
+  cases c <;> rfl
+
+theorem goRight_def (c : Cursor α) :
+    goRight c =
+      match c with
+      | none => none
+      | some p => if isNil (right p.cur) then none else some { p with dirs := p.dirs ++ [.R] } := by
+  cases c <;> rfl
+
+theorem up_def (c : Cursor α) :
+    up c =
+      match c with
+      | none => none
+      | some p => if p.dirs.length = 0 then none else some { p with dirs := p.dirs.dropLast } := by
+  cases c with
+  | none => rfl
+  | some p =>
+    have h : (Gen.Cursor.upLen ((p.dirs.length + 1 : Nat) : Int)).toNat = p.dirs.length := by
+      simp only [Gen.Cursor.upLen]; omega
+    simp only [up, pathTake, h, List.dropLast_eq_take]
+
+theorem min_def (c : Cursor α) :
+    MdsVerif.Model.Cursor.min c =
+      match c with
+      | none => none
+      | some p => some { p with dirs := p.dirs ++ spineL p.cur } := by
+  cases c <;> rfl
+
+theorem max_def (c : Cursor α) :
+    MdsVerif.Model.Cursor.max c =
+      match c with
+      | none => none
+      | some p => some { p with dirs := p.dirs ++ spineR p.cur } := by
+  cases c <;> rfl
+
+end facts
+
 /-! ## contexts -/
 
 /-- keys of `t` in order that come before the subtree at `ds` -/
@@ -287,7 +443,7 @@ theorem next_spec (p : Pos α) (l r : Tree α) (x : α) (h : p.cur = .node l x r
       have : sub p.root p.dirs = .node l x (.node rl rx rr) := h
       rw [this]; simpa [sub] using h1
     refine ⟨{ p with dirs := p.dirs ++ .R :: spineL (.node rl rx rr) }, y, ?_, ?_, rfl, ?_, ?_, ?_⟩
-    · simp [next, findNext, h, right]
+    · simp [next_def, findNext_def, h, right]
     · show isNil (sub _ _) = false
       rw [hcur]; rfl
     · exact key?_some hcur
@@ -315,13 +471,13 @@ theorem next_spec (p : Pos α) (l r : Tree α) (x : α) (h : p.cur = .node l x r
       left
       rw [hwu] at hspec
       refine ⟨by simp [Pos.after, Pos.cur, hs, right, hspec, Tree.toList], ?_⟩
-      simp [next, findNext, h, right, hwu]
+      simp [next_def, findNext_def, h, right, hwu]
     | some j =>
       right
       rw [hwu] at hspec
       obtain ⟨l', x', r', h1, h2, h3⟩ := hspec
       refine ⟨{ p with dirs := p.dirs.take j }, x', ?_, ?_, rfl, ?_, ?_, ?_⟩
-      · simp [next, findNext, h, right, hwu]
+      · simp [next_def, findNext_def, h, right, hwu]
       · show isNil (sub _ _) = false
         rw [h1]; rfl
       · exact key?_some h1
@@ -346,7 +502,7 @@ theorem prev_spec (p : Pos α) (l r : Tree α) (x : α) (h : p.cur = .node l x r
       have : sub p.root p.dirs = .node (.node ll lx lr) x r := h
       rw [this]; simpa [sub] using h1
     refine ⟨{ p with dirs := p.dirs ++ .L :: spineR (.node ll lx lr) }, y, ?_, ?_, rfl, ?_, ?_, ?_⟩
-    · simp [prev, findPrev, h, left]
+    · simp [prev_def, findPrev_def, h, left]
     · show isNil (sub _ _) = false
       rw [hcur]; rfl
     · exact key?_some hcur
@@ -374,13 +530,13 @@ theorem prev_spec (p : Pos α) (l r : Tree α) (x : α) (h : p.cur = .node l x r
       left
       rw [hwu] at hspec
       refine ⟨by simp [Pos.before, Pos.cur, hs, left, hspec, Tree.toList], ?_⟩
-      simp [prev, findPrev, h, left, hwu]
+      simp [prev_def, findPrev_def, h, left, hwu]
     | some j =>
       right
       rw [hwu] at hspec
       obtain ⟨l', x', r', h1, h2, h3⟩ := hspec
       refine ⟨{ p with dirs := p.dirs.take j }, x', ?_, ?_, rfl, ?_, ?_, ?_⟩
-      · simp [prev, findPrev, h, left, hwu]
+      · simp [prev_def, findPrev_def, h, left, hwu]
       · show isNil (sub _ _) = false
         rw [h1]; rfl
       · exact key?_some h1
@@ -392,12 +548,12 @@ theorem prev_spec (p : Pos α) (l r : Tree α) (x : α) (h : p.cur = .node l x r
 theorem hasNext_eq (c : Cursor α) : hasNext c = valid (next c) := by
   cases c with
   | none => rfl
-  | some p => simp only [hasNext, next]; cases findNext p <;> rfl
+  | some p => simp only [hasNext_def, next_def]; cases findNext p <;> rfl
 
 theorem hasPrev_eq (c : Cursor α) : hasPrev c = valid (prev c) := by
   cases c with
   | none => rfl
-  | some p => simp only [hasPrev, prev]; cases findPrev p <;> rfl
+  | some p => simp only [hasPrev_def, prev_def]; cases findPrev p <;> rfl
 
 /-! ## order -/
 
@@ -546,11 +702,11 @@ theorem goLeft_spec (p : Pos α) (l r : Tree α) (x : α) (h : p.cur = .node l x
     (∃ p', goLeft (some p) = some p' ∧ p'.WF ∧ p'.root = p.root ∧ p'.dirs = p.dirs ++ [.L] ∧ p'.cur = l) := by
   have hs : sub p.root p.dirs = .node l x r := h
   cases l with
-  | nil => left; simp [goLeft, h, left, isNil]
+  | nil => left; simp [goLeft_def, h, left, isNil]
   | node a y b =>
     right
     have hc : sub p.root (p.dirs ++ [.L]) = .node a y b := by rw [sub_append, hs]; simp [sub]
-    exact ⟨{ p with dirs := p.dirs ++ [.L] }, by simp [goLeft, h, left, isNil],
+    exact ⟨{ p with dirs := p.dirs ++ [.L] }, by simp [goLeft_def, h, left, isNil],
       by show isNil (sub _ _) = false; rw [hc]; rfl, rfl, rfl, hc⟩
 
 theorem goRight_spec (p : Pos α) (l r : Tree α) (x : α) (h : p.cur = .node l x r) :
@@ -558,11 +714,11 @@ theorem goRight_spec (p : Pos α) (l r : Tree α) (x : α) (h : p.cur = .node l 
     (∃ p', goRight (some p) = some p' ∧ p'.WF ∧ p'.root = p.root ∧ p'.dirs = p.dirs ++ [.R] ∧ p'.cur = r) := by
   have hs : sub p.root p.dirs = .node l x r := h
   cases r with
-  | nil => left; simp [goRight, h, right, isNil]
+  | nil => left; simp [goRight_def, h, right, isNil]
   | node a y b =>
     right
     have hc : sub p.root (p.dirs ++ [.R]) = .node a y b := by rw [sub_append, hs]; simp [sub]
-    exact ⟨{ p with dirs := p.dirs ++ [.R] }, by simp [goRight, h, right, isNil],
+    exact ⟨{ p with dirs := p.dirs ++ [.R] }, by simp [goRight_def, h, right, isNil],
       by show isNil (sub _ _) = false; rw [hc]; rfl, rfl, rfl, hc⟩
 
 /-- everything at or below the left child is smaller, everything at or below the right child larger -/
@@ -593,12 +749,12 @@ theorem up_spec (p : Pos α) (hw : p.WF) :
     (∃ p' d, up (some p) = some p' ∧ p'.WF ∧ p'.root = p.root ∧ p.dirs = p'.dirs ++ [d] ∧
       (match d with | .L => left p'.cur | .R => right p'.cur) = p.cur) := by
   rcases hd : p.dirs with _ | ⟨d0, ds0⟩
-  · left; simp [up, hd]
+  · left; simp [up_def, hd]
   · right
     have hne : p.dirs ≠ [] := by rw [hd]; simp
     have hsplit : p.dirs = p.dirs.dropLast ++ [p.dirs.getLast hne] := (List.dropLast_concat_getLast hne).symm
     refine ⟨{ p with dirs := p.dirs.dropLast }, p.dirs.getLast hne, ?_, ?_, rfl, ?_, ?_⟩
-    · simp [up, hd]
+    · simp [up_def, hd]
     · show isNil (sub _ _) = false
       have : isNil (sub p.root (p.dirs.dropLast ++ [p.dirs.getLast hne])) = false := by rw [← hsplit]; exact hw
       exact sub_prefix_ne_nil this
